@@ -436,6 +436,46 @@ func (g *gen) pick() {
 	g.emit(fmt.Sprintf("pick %s %s %d %s", ks, tk, limit, perms), cls, true)
 }
 
+// exhaustive small scope (thorough): token-aware over every fallback kind, with and without non-local
+// fallback, 4 hosts with every assignment of (dc, rack) in {(0,0),(0,1),(1,0)}, every up/down pattern,
+// every replica list of at most 2 distinct hosts; full drain of one pick each.
+func exhaustive(g *gen) {
+	places := [][2]int{{0, 0}, {0, 1}, {1, 0}}
+	var repls []string
+	repls = append(repls, "-")
+	for a := 1; a <= 4; a++ {
+		repls = append(repls, strconv.Itoa(a))
+		for b := 1; b <= 4; b++ {
+			if a != b {
+				repls = append(repls, fmt.Sprintf("%d,%d", a, b))
+			}
+		}
+	}
+	for _, kind := range []string{"rr", "dc", "rack"} {
+		for nl := 0; nl < 2; nl++ {
+			for asg := 0; asg < 81; asg++ {
+				g.emit(fmt.Sprintf("reset %s 1 0 0 0 %d 1", kind, nl), "exh/reset", false)
+				x := asg
+				for id := 1; id <= 4; id++ {
+					pl := places[x%3]
+					x /= 3
+					g.emit(fmt.Sprintf("host %d %d %d %d -", id, id, pl[0], pl[1]), "exh/host", false)
+					g.emit(fmt.Sprintf("add %d", id), "exh/add", false)
+				}
+				for pat := 0; pat < 16; pat++ {
+					for id := 1; id <= 4; id++ {
+						g.emit(fmt.Sprintf("state %d %d", id, (pat>>(id-1))&1), "exh/state", false)
+					}
+					for _, rp := range repls {
+						g.emit("repl 0 500:"+rp, "exh/repl", false)
+						g.emit("pick 0 100 1000 -", "exh/pick/"+kind, true)
+					}
+				}
+			}
+		}
+	}
+}
+
 var raceNil, racePanics int64
 
 // raceRun: picks run concurrently with add/remove/up/down/state changes on the real policy
@@ -551,6 +591,7 @@ func main() {
 	}
 	extra := map[string]interface{}{}
 	if tier == "thorough" {
+		exhaustive(g)
 		res := raceRun(r, 40)
 		out.Case("race 40", res, "race", false)
 		extra["race_rounds"] = 40
